@@ -48,6 +48,7 @@ class Sandbox:
         self.build()
 
     def build(self):
+        self.content = {}
         shutil.rmtree(self.box, ignore_errors=True)
         os.makedirs(self.l3)
         os.makedirs(self.arch)
@@ -58,18 +59,18 @@ class Sandbox:
             os.makedirs(os.path.join(self.l3, s, "d"))
             self._file(os.path.join(self.l3, s, "a"), "source %s/a\n" % s)
             self._file(os.path.join(self.l3, s, "d", "a"), "source %s/d/a\n" % s)
-        with open(os.path.join(self.l3, "wf.yaml"), "w") as f:
-            f.write("components:\n- name: hello\n  command:\n    executable: echo\n    arguments: hi\n")
+        self._file(os.path.join(self.l3, "wf.yaml"), "components:\n- name: hello\n  command:\n    executable: echo\n    arguments: hi\n")
         # the archive of the `stage` family: a single file member d/a
         self.make_tar([{"k": "file", "n": ["d", "a"], "t": []}], os.path.join(self.arch, "stage.tar"))
         for dirpath, dirs, files in os.walk(self.box):
             for n in dirs + files:
                 os.utime(os.path.join(dirpath, n), (1500000000, 1500000000), follow_symlinks=False)
 
-    @staticmethod
-    def _file(p, text):
+    def _file(self, p, text):
         with open(p, "w") as f:
             f.write(text)
+        if p.startswith(self.box + os.sep):
+            self.content[p[len(self.box) + 1:]] = text
 
     def render(self, segs):
         """model name -> text; "" as first segment = absolute = the sandbox's model root (never a real system path)"""
@@ -86,30 +87,57 @@ class Sandbox:
         os.mkdir(self.target)
 
     def listing(self, skip=None):
-        """everything in the box except the target subtree: relpath -> (type, size, mode, mtime_ns, link target, content)"""
+        """everything in the box except the target subtree: relpath -> (type, size, mode, mtime_ns, inode | link target)"""
         skip = skip or self.target
         out = {}
-        for dirpath, dirs, files in os.walk(self.box, followlinks=False):
-            if dirpath == skip:
-                dirs[:] = []
-                continue
-            for n in list(dirs) + files:
-                p = os.path.join(dirpath, n)
-                if p == skip:
-                    continue
-                st = os.lstat(p)
-                rel = os.path.relpath(p, self.box)
-                if stat.S_ISLNK(st.st_mode):
-                    out[rel] = ("sym", os.readlink(p))
-                elif stat.S_ISDIR(st.st_mode):
-                    out[rel] = ("dir", stat.S_IMODE(st.st_mode), st.st_mtime_ns)
-                else:
-                    with open(p, "rb") as f:
-                        data = f.read() if st.st_size < 4096 else b""
-                    out[rel] = ("file", st.st_size, stat.S_IMODE(st.st_mode), st.st_mtime_ns, data)
-            # do not descend into symbolic links to directories (os.walk lists them under dirs)
-            dirs[:] = [d for d in dirs if not os.path.islink(os.path.join(dirpath, d)) and os.path.join(dirpath, d) != skip]
+        stack = [self.box]
+        while stack:
+            d = stack.pop()
+            with os.scandir(d) as it:
+                for e in it:
+                    p = e.path
+                    if p == skip:
+                        continue
+                    st = e.stat(follow_symlinks=False)
+                    rel = p[len(self.box) + 1:]
+                    if stat.S_ISLNK(st.st_mode):
+                        out[rel] = ("sym", os.readlink(p))
+                    elif stat.S_ISDIR(st.st_mode):
+                        out[rel] = ("dir", stat.S_IMODE(st.st_mode), st.st_mtime_ns)
+                        stack.append(p)
+                    else:
+                        out[rel] = ("file", st.st_size, stat.S_IMODE(st.st_mode), st.st_mtime_ns, st.st_ino)
         return out
+
+    def repair(self, before, after):
+        """undo what an escaping input did outside the target (cheaper than rebuilding); falls back to build()"""
+        try:
+            for rel in sorted(set(after) - set(before), key=len, reverse=True):
+                p = os.path.join(self.box, rel)
+                if os.path.islink(p) or not os.path.isdir(p):
+                    os.unlink(p)
+                else:
+                    shutil.rmtree(p)
+            for rel, b in before.items():
+                p = os.path.join(self.box, rel)
+                if after.get(rel) != b and b[0] == "file":
+                    if os.path.lexists(p):
+                        os.unlink(p)              # also breaks a hard link into the target
+                    self._file(p, self.content[rel])
+            for rel, b in sorted(before.items(), key=lambda kv: len(kv[0]), reverse=True):
+                p = os.path.join(self.box, rel)
+                if b[0] == "dir":
+                    os.chmod(p, b[1])
+                    os.utime(p, ns=(b[2], b[2]))
+                elif b[0] == "file":
+                    os.chmod(p, b[2])
+                    os.utime(p, ns=(b[3], b[3]))
+            now = self.listing()
+            strip = lambda l: {k: v[:4] for k, v in l.items()}      # inodes of rewritten files differ
+            if strip(now) != strip(before):
+                raise OSError("repair incomplete")
+        except OSError:
+            self.build()
 
     def tree(self, top):
         """entries below top: relpath segments -> kind"""
@@ -235,7 +263,8 @@ def real_archive(sb, case, env):
         raised = "rejected"
     except Exception as e:
         raised = "other:" + type(e).__name__
-    return raised, diff(before, sb.listing()), sb.tree(sb.target)
+    after = sb.listing()
+    return raised, diff(before, after), sb.tree(sb.target), before, after
 
 
 SRC = {"pa": ("p", "a"), "qa": ("q", "a"), "pd": ("p", "d"), "qd": ("q", "d")}
@@ -254,13 +283,13 @@ def real_stage(sb, case, env):
         raised = "rejected"
     except Exception as e:
         raised = "other:" + type(e).__name__
-    return raised, diff(before, sb.listing()), sb.tree(sb.target)
+    after = sb.listing()
+    return raised, diff(before, after), sb.tree(sb.target), before, after
 
 
 def real_manifest(sb, case, env):
     S, E = env["S"], env["E"]
-    if os.path.lexists(sb.target):
-        shutil.rmtree(sb.target)
+    sb.fresh_target()
     manifest = {}
     for m in case["inp"]:
         manifest[sb.render(m["n"])] = "%s:%s" % (m["t"], m["k"])
@@ -277,7 +306,8 @@ def real_manifest(sb, case, env):
     except Exception as e:
         raised = "other:" + type(e).__name__
     tree = sb.tree(sb.target) if os.path.isdir(sb.target) else {}
-    return raised, diff(before, sb.listing()), tree
+    after = sb.listing()
+    return raised, diff(before, after), tree, before, after
 
 
 def real_stagein(sb, case, env, n):
@@ -310,8 +340,8 @@ def real_stagein(sb, case, env, n):
     for s in ("p", "q"):
         wd = g.nodes["stage0.%s" % s]["componentInstance"].directory
         os.makedirs(os.path.join(wd, "d"))
-        Sandbox._file(os.path.join(wd, "a"), "source %s/a\n" % s)
-        Sandbox._file(os.path.join(wd, "d", "a"), "source %s/d/a\n" % s)
+        sb._file(os.path.join(wd, "a"), "source %s/a\n" % s)
+        sb._file(os.path.join(wd, "d", "a"), "source %s/d/a\n" % s)
         if s == "p":
             shutil.copy(os.path.join(sb.arch, "stage.tar"), os.path.join(wd, "stage.tar"))
     job = g.nodes["stage1.c"]["componentInstance"]
@@ -327,7 +357,7 @@ def real_stagein(sb, case, env, n):
     ch = diff(before, sb.listing(skip=wdir))
     shutil.rmtree(loc, ignore_errors=True)
     shutil.rmtree(shadow, ignore_errors=True)
-    return raised, ch, {}
+    return raised, ch, {}, None, None
 
 
 # =====================================================================================================================
@@ -344,12 +374,12 @@ def expected_tree(mode, case):
 
 
 def judge(chk, mode, case, res, stats, found, via=""):
-    raised, changed, tree = res
+    raised, changed, tree = res[:3]
     inp = case["inp"]
     mech = mechanism(mode, inp)
-    op = {"archive": "extract", "manifest": "deploy", "stage": "stage"}[mode] + via
+    op = {"archive": "extract", "manifest": "deploy", "stage": "stage"}[mode]
     rp = {"mode": mode, "case": case, "via": via}
-    text = show(mode, inp)
+    text = show(mode, inp) + (" (through Job.stageIn of a real experiment)" if via else "")
     stats["n"] += 1
     if changed:
         stats["escaped"] += 1
@@ -391,14 +421,13 @@ def execute(chk, mode, cases, sb, env, found, stagein=False):
         res = fn(sb, case, env)
         chk.evaluated((mode, json.dumps(case["inp"], sort_keys=True)))
         if judge(chk, mode, case, res, stats, found):
-            sb.build()
+            sb.repair(res[3], res[4])
         if stagein:
             n += 1
             r2 = real_stagein(sb, case, env, n)
             if r2 is not None:
                 chk.evaluated((mode + "-stagein", json.dumps(case["inp"], sort_keys=True)))
-                if judge(chk, mode, case, r2, stats, found, via="In"):
-                    sb.build()
+                judge(chk, mode, case, r2, stats, found, via="In")      # the instance directory is removed anyway
         if stats["n"] % 997 == 1:
             chk.sample({"mode": mode, "input": show(mode, case["inp"]), "hostile": case["hostile"], "real_outcome": res[0] or "carried out",
                         "outside_modified": bool(res[1])}, limit=8)
@@ -426,7 +455,8 @@ INV = "INVARIANT TypeOK\nINVARIANT Confined\nINVARIANT NoOverRejection\nINVARIAN
 def families(thorough):
     """(mode, label, constants) of the input families that are emitted and executed"""
     fam = [("archive", "two", dict(MaxMembers="2")),
-           ("manifest", "two", dict(Mode='"manifest"', MaxMembers="2", Srcs='{"p"}' if not thorough else '{"p", "q"}')),
+           ("manifest", "two", dict(Mode='"manifest"', MaxMembers="2", Segs='{"a", "c", "..", ""}',
+                                    Srcs='{"p"}' if not thorough else '{"p", "q"}')),
            ("stage", "two", dict(Mode='"stage"', MaxMembers="2"))]
     if thorough:
         fam += [("archive", "names3", dict(MaxMembers="2", MaxLen="3", Segs='{"a", "..", ""}', LinkNameLen="2", LinkSegs='{"a", ".."}')),
@@ -460,18 +490,17 @@ def _run(chk, thorough, gen, only):
         # ---- 1. the design -------------------------------------------------------------------------------------------
         for mode in ("archive", "manifest", "stage"):
             kw = dict(Mode='"%s"' % mode)
-            c = _cfg(os.path.join(gen, "Confine_mc_%s.cfg" % mode), consts(**kw) + "SPECIFICATION Spec\n" + INV)
-            r = tlc.run_tlc("Confine", c, timeout=800)
+            c = _cfg(os.path.join(gen, "Confine_mc_%s.cfg" % mode), consts(**kw) + "SPECIFICATION Spec\nINVARIANT TracePc\n" + INV)
+            r = tlc.run_tlc("Confine", c, timeout=800, workers=4)
             if not r["ok"]:
                 raise MachineryError("Confine.tla (%s): %s fails on the model:\n%s" % (mode, r["violated"], r["out"][-2000:]))
+            # vacuity guard: every action of the stager was taken (control states reached, printed by TracePc; TLC's own
+            # -coverage is unusably slow on the recursive operators of this module)
+            reach = {"Reject": '"rejected"', "Accept": '"run"', "Step": '"stepped"', "Finish": '"done"'}
+            r["coverage"] = {a: r["out"].count(tok) for a, tok in reach.items()}
+            if not all(r["coverage"].values()):
+                raise MachineryError("Confine.tla (%s): an action is never taken (vacuous run): %s" % (mode, r["coverage"]))
             chk.add_tlc(r)
-            # coverage of the actions on a smaller instance (coverage instrumentation of the recursive operators is slow)
-            c = _cfg(os.path.join(gen, "Confine_cov_%s.cfg" % mode),
-                     consts(MaxMembers="2" if mode == "stage" else "1", **kw) + "SPECIFICATION Spec\n" + INV)
-            r = tlc.run_tlc("Confine", c, timeout=800, coverage=True)
-            for act in ("Reject", "Accept", "Step", "Finish"):
-                if not r["ok"] or not r["coverage"].get(act):
-                    raise MachineryError("Confine.tla (%s): action %s never taken / run failed: %s" % (mode, act, r.get("coverage")))
             # witness: the guard of the implementation does not confine
             c = _cfg(os.path.join(gen, "Confine_witness_%s.cfg" % mode),
                      consts(Guard='"prefix"', **kw) + "SPECIFICATION Spec\nINVARIANT Confined\nCHECK_DEADLOCK FALSE\n")
